@@ -45,6 +45,61 @@ def size_call(func, al, n):
     return None
 
 
+def _lin(func, al, e, cont):
+    """(constant, {atom text: coefficient}, coefficient of <cont>.size()) of an integer expression in linear form, or None"""
+    while e is not None and e.get("k") == "cast":
+        e = e["e"]
+    if e is None:
+        return None
+    cv = astq.const_value(e)
+    if cv is not None:
+        return (cv, {}, 0)
+    if size_call(func, al, e) == cont:
+        return (0, {}, 1)
+    if e.get("k") == "bin" and e["op"] in ("+", "-"):
+        a, b = _lin(func, al, e["lhs"], cont), _lin(func, al, e["rhs"], cont)
+        if a is None or b is None:
+            return None
+        sg = 1 if e["op"] == "+" else -1
+        d = dict(a[1])
+        for k_, v_ in b[1].items():
+            d[k_] = d.get(k_, 0) + sg * v_
+        return (a[0] + sg * b[0], {k_: v_ for k_, v_ in d.items() if v_}, a[2] + sg * b[2])
+    if e.get("k") == "un" and e.get("op") == "-":
+        a = _lin(func, al, e["e"], cont)
+        return None if a is None else (-a[0], {k_: -v_ for k_, v_ in a[1].items()}, -a[2])
+    return (0, {astq.estr(e): 1}, 0)
+
+
+def _depth_of_index(func, al, idx, cont, from_end=False):
+    """an index into <cont> written relative to its size: ('static', depth) for size()-depth, ('dyn', expr) when other variables
+    are involved, None when the index is not relative to the size. Hoisted locals are expanded first. from_end: the expression is
+    the k of `end() - k`."""
+    x = idx
+    l = _lin(func, al, x, cont)
+    if l is None or l[2] == 0:
+        # not relative to the size as written: look through hoisted locals, but keep locals that hold script data (declared from
+        # a call) as variables so that their range test can still be found
+        def _top(e_):
+            while e_ is not None and e_.get("k") in ("cast", "defarg"):
+                e_ = e_.get("e")
+            return e_
+        keep = tuple(d_["n"] for n_ in func.nodes() if n_["k"] == "decl" for d_ in n_["decls"]
+                     if d_.get("init") is not None and (_top(d_["init"]) or {}).get("k") in ("call", "mcall", "ctor") and (_top(d_["init"]) or {}).get("n") != "size")
+        x = astq.expand(func, idx, keep=keep)
+        l = _lin(func, al, x, cont)
+    if l is None:
+        return None
+    c0, atoms, sz = l
+    if from_end:
+        c0, atoms, sz = -c0, {k_: -v_ for k_, v_ in atoms.items()}, 1 - sz
+    if sz != 1:
+        return None
+    if not atoms:
+        return ("static", -c0) if c0 < 0 else None
+    return ("dyn", x)
+
+
 def stack_events(func, al, region_nodes):
     """accesses, pops, pushes, guards found in a region (list of nodes, pre-walked)"""
     acc, pops, pushes, guards, dyn = [], [], [], [], []
@@ -60,6 +115,13 @@ def stack_events(func, al, region_nodes):
                         acc.append((c, -cv, n))
                 else:
                     dyn.append((c, a["rhs"], n))
+                continue
+            # other spellings of an index relative to the size (size() - n - 1, a hoisted position, ...)
+            r_ = _depth_of_index(func, al, a, c) if c else None
+            if r_ is not None and r_[0] == "static":
+                acc.append((c, r_[1], n))
+            elif r_ is not None:
+                dyn.append((c, r_[1], n))
         elif k == "mcall" and n.get("n") in ("back",):
             c = container_of(func, al, n.get("obj"))
             if c:
@@ -73,6 +135,14 @@ def stack_events(func, al, region_nodes):
                     acc.append((c, cv, n))
                 elif c and cv is None:
                     dyn.append((c, n["args"][1], n))
+        elif k == "opcall" and n["op"] == "+" and len(n["args"]) == 2 and n["args"][0].get("k") == "mcall" and n["args"][0].get("n") == "begin":
+            # begin() + (size() - k): the same element as end() - k
+            c = container_of(func, al, n["args"][0].get("obj"))
+            r_ = _depth_of_index(func, al, n["args"][1], c) if c else None
+            if r_ is not None and r_[0] == "static":
+                acc.append((c, r_[1], n))
+            elif r_ is not None:
+                dyn.append((c, r_[1], n))
         elif k == "call" and n.get("n") == "_popstack" and n["args"]:
             c = container_of(func, al, n["args"][0])
             if c:
